@@ -288,7 +288,48 @@ pub fn e2e_strategy() -> impl Strategy<Value = E2e> {
         v.extend_from_slice(&a.bytes(tcp));
         (Hex(v), "prefixed-request".to_string(), tcp)
     });
-    (scenario_quiet(Fam::Any), port(), port(), prop_oneof![3 => valid, 2 => nosig, 1 => prefixed]).prop_map(|(scn, sport, dport, (payload, kind, tcp))| E2e { scn, sport, dport, tcp, payload, kind })
+    // look-alikes: payloads one step away from a signature (older / newer protocol versions, other
+    // letter case, other framing, response instead of request), sent to the port where that
+    // protocol usually lives; the reference automaton decides what, if anything, they complete
+    let lookalikes: Vec<(&'static [u8], &'static [u16])> = vec![
+        (b"SSH-1.5-OpenSSH_1.2.27\r\n", &[22, 2222]),
+        (b"SSH-1.0-x\r\n", &[22, 2222]),
+        (b"SSH-2.1-x\r\n", &[22]),
+        (b"ssh-2.0-x\r\n", &[22]),
+        (b"SSH-3.0-x\r\n", &[22]),
+        (b"get / HTTP/1.1\r\n\r\n", &[80, 8080, 443]),
+        (b"GET\t/ HTTP/1.1\r\n\r\n", &[80, 8080]),
+        (b"GET  / HTTP/1.1\r\n\r\n", &[80]),
+        (b"GET index.html HTTP/1.0\r\n\r\n", &[80, 8000]),
+        (b"BREW / HTTP/1.1\r\n\r\n", &[80]),
+        (b"PROPFIND / HTTP/1.1\r\n\r\n", &[80, 443]),
+        (b"HTTP/1.1 200 OK\r\n\r\n", &[80, 3128]),
+        (b"PRI * HTTP/2.0\r\n\r\nSM\r\n\r\n", &[80, 443]),
+        (b"\x16\x03\x01\x00\x2f\x01\x00\x00\x2b\x03\x03", &[443, 8443, 22]),
+        (b"gh0st\x16\x00\x00\x00\x01\x00\x00\x00", &[80, 8000, 2011]),
+        (b"GH0ST\x16\x00\x00\x00\x01\x00\x00\x00", &[80]),
+        (b"\xffSMBr\x00\x00\x00\x00\x18\x01\x28", &[445, 139]),
+        (b"\x81\x00\x00\x44 CKFDENECFDEFFCFGEFFCCACACACACACA\x00 CACACACACACACACACACACACACACACAAA\x00", &[139]),
+        (b"\x00\x00\x00\x08\xffSMC\x72\x00\x00\x00", &[445, 139]),
+        (b"\x00\x02\x00\x00\x21\x12\xa4\x42\x00\x00\x00\x00\x00\x00\x00\x00\x00\x00\x00\x00", &[3478, 5349]),
+        (b"\x00\x01\x00\x04\x00\x00\x00\x00\x00\x00\x00\x00\x00\x00\x00\x00\x00\x00\x00\x00\x00\x06\x00\x00", &[3478]),
+        (b"\x72\xfe\x1d\x13\x00\x00\x00\x01\x00\x00\x00\x02\x00\x01\x86\xa0\x00\x00\x00\x02\x00\x00\x00\x03", &[111, 2049]),
+        (b"\x72\xfe\x1d\x13\x00\x00\x00\x00\x00\x00\x00\x03\x00\x01\x86\xa0\x00\x00\x00\x02\x00\x00\x00\x03\x00\x00\x00\x00\x00\x00\x00\x00\x00\x00\x00\x00\x00\x00\x00\x00", &[111]),
+        (b"\x00\x1d\x13\x37\x01\x00\x00\x01\x00\x00\x00\x00\x00\x00\x03www\x07example\x03com\x00\x00\x01\x00\x01", &[53]),
+        (b"\x05\x01\x00", &[1080]),
+        (b"\x04\x01\x00\x50\x7f\x00\x00\x01\x00", &[1080]),
+        (b"CONNECT example.com:443 HTTP/1.1\r\n\r\n", &[3128, 8080]),
+        (b"OPTIONS * HTTP/1.1\r\n\r\n", &[80]),
+        (b"\r\n\r\n\x00\r\nQUIT\n\x21\x11\x00\x0c", &[80, 443]),
+    ];
+    let look = (prop::sample::select(lookalikes), any::<u16>(), prop::bool::weighted(0.7), any::<bool>(), vec(any::<u8>(), 0..12)).prop_map(|((bytes, ports), pi, std_port, tcp, tail)| {
+        let mut v = bytes.to_vec();
+        v.extend_from_slice(&tail);
+        let dport = if std_port { Some(ports[pick(pi, ports.len())]) } else { None };
+        (Hex(v), "look-alike".to_string(), tcp, dport)
+    });
+    let plain = prop_oneof![3 => valid, 2 => nosig, 1 => prefixed].prop_map(|(p, k, t)| (p, k, t, None::<u16>));
+    (scenario_quiet(Fam::Any), port(), port(), prop_oneof![6 => plain, 1 => look]).prop_map(|(scn, sport, dport, (payload, kind, tcp, fixed_dport))| E2e { scn, sport, dport: fixed_dport.unwrap_or(dport), tcp, payload, kind })
 }
 
 fn expected_responder(kind: &str, tcp: bool) -> Option<Responder> {
@@ -570,6 +611,15 @@ pub fn seg_check(c: &SegCase, st: &mut Stats) -> Check {
     let norm = |x: Option<usize>| x.filter(|i| *i != none_id && *i != hook_id("NO_MATCH"));
     vensure!(norm(whole) == want_id.filter(|_| true) || (want_id.is_some() && r.protos.iter().any(|p| Some(hook_id(p.hook_name())) == norm(whole))), "unsplit delivery of {} identified as id {:?}, reference says {:?}", hex(s), whole, r.protos);
     let mut count = 0u64;
+    // zero-length data segments (a PSH|ACK without payload) before or inside the prefix change nothing
+    let got = peek_id_x(&sut, &flow, s, &[0, n], c.last_extra).map_err(Failure::new)?;
+    vensure!(norm(got) == norm(whole), "decision depends on an empty data segment sent first: {} -> id {:?}, without it -> id {:?}", hex(s), got, whole);
+    if n >= 2 {
+        let a = 1 + (c.sport as usize % (n - 1));
+        let got = peek_id_x(&sut, &flow, s, &[a, 0, n - a], c.last_extra).map_err(Failure::new)?;
+        vensure!(norm(got) == norm(whole), "decision depends on an empty data segment at offset {}: {} -> id {:?}, without it -> id {:?}", a, hex(s), got, whole);
+    }
+    count += 2;
     for a in 1..n {
         let got = peek_id_x(&sut, &flow, s, &[a, n - a], c.last_extra).map_err(Failure::new)?;
         count += 1;
@@ -616,7 +666,7 @@ impl Prop for C10 {
         "C10"
     }
     fn rule(&self) -> &'static str {
-        "(1) exhaustive breadth-first exploration of the product of the reference signature automaton (17 published signatures transcribed as data: literals, ? wildcards, begin/end anchors) with the compiled matcher stepped one byte at a time through the hook, over ALL 256 byte values per step plus the end-of-input step at every product state; product state = (position, alive signature set, matcher row | pending matches, shadowing-excuse mask); oracle: the matcher reports a protocol exactly where a signature first completes (ties accept either). (2) end-to-end through reply(): complete valid requests from every protocol generator and payloads whose leading bytes complete no signature (constructed by walking the reference automaton), over UDP and over a handshaken TCP flow on random ports/addresses; the responder (classified by independent decoders) must be the completed signature's, or nobody (DNS fallback allowed for datagrams). (2b) over a handshaken TCP flow a complete request of one protocol followed, in later segments, by 1..3 complete requests of arbitrary other protocols: no segment of the flow is answered by a responder other than the one the stream's leading bytes selected. (2c) a Gh0st packet split after 1..4 bytes with 66 000 (quick) / 140 000 (thorough) other connections opened and validated between the two parts: the second part must still get the Gh0st answer. (3) for witness prefixes (every signature with random wildcard bytes, perturbed, extended) ALL 1- and 2-cut TCP segmentations and another port/address pair: the protocol id recorded in the control block equals the unsplit delivery's. Non-trivial = product states with a non-empty alive set / witnesses answered or rejected / prefixes that complete a signature; distinct by hash."
+        "(1) exhaustive breadth-first exploration of the product of the reference signature automaton (17 published signatures transcribed as data: literals, ? wildcards, begin/end anchors) with the compiled matcher stepped one byte at a time through the hook, over ALL 256 byte values per step plus the end-of-input step at every product state; product state = (position, alive signature set, matcher row | pending matches, shadowing-excuse mask); oracle: the matcher reports a protocol exactly where a signature first completes (ties accept either). (2) end-to-end through reply(): complete valid requests from every protocol generator and payloads whose leading bytes complete no signature (constructed by walking the reference automaton; plus about thirty look-alikes — other protocol versions, other letter case, other framing, responses, TLS / SOCKS / HTTP/2 openers — sent to the port where the imitated protocol usually lives), over UDP and over a handshaken TCP flow on random ports/addresses; the responder (classified by independent decoders) must be the completed signature's, or nobody (DNS fallback allowed for datagrams). (2b) over a handshaken TCP flow a complete request of one protocol followed, in later segments, by 1..3 complete requests of arbitrary other protocols: no segment of the flow is answered by a responder other than the one the stream's leading bytes selected. (2c) a Gh0st packet split after 1..4 bytes with 66 000 (quick) / 140 000 (thorough) other connections opened and validated between the two parts: the second part must still get the Gh0st answer. (3) for witness prefixes (every signature with random wildcard bytes, perturbed, extended) ALL 1- and 2-cut TCP segmentations and another port/address pair: the protocol id recorded in the control block equals the unsplit delivery's. Non-trivial = product states with a non-empty alive set / witnesses answered or rejected / prefixes that complete a signature; distinct by hash."
     }
     fn run(&self, ctx: &mut RunCtx) {
         if ctx.worker == 0 {
